@@ -335,7 +335,9 @@ class C10(Prop):
         elif clause in ('output_files', 'executable_runs', 'exit_code_rule', 'failing_pre_blocks_exec',
                         'per_rank_only_on_rank', 'pre_before_post_after', 'cwd_sandbox'):
             names = [case.get(k) for k in ('stdout', 'stderr') if case.get(k)]
-            if any(special(n) for n in names):
+            if obs and any(r['probe'] and r['probe']['args'] != case['args'] for r in obs.get('ranks') or []):
+                cond = 'argv-differs'
+            elif any(special(n) for n in names):
                 cond = 'output-name-with-shell-special-character'
             elif any('"' in v or '\\' in v for _, v in case['env']):
                 cond = 'env-value-with-double-quote-or-backslash'
@@ -345,7 +347,22 @@ class C10(Prop):
                 cond = 'single-rank'
         return '%s:%s:%s' % (clause, SITES.get(clause, '?'), cond)
 
+    shrink_rounds = 0
+
     def shrink(self, case):
+        """smaller variants; the total shrinking effort of one run is bounded (a broken generator breaks
+        many clauses at once, and every candidate costs a bash run plus a coqc start)"""
+        self.shrink_rounds += 1
+        if self.shrink_rounds > 14:
+            return
+        n = 0
+        for c in self._shrink(case):
+            n += 1
+            if n > 24:
+                return
+            yield c
+
+    def _shrink(self, case):
         c = case
         for i in range(len(c['args'])):
             yield dict(c, args=c['args'][:i] + c['args'][i + 1:])
